@@ -469,7 +469,7 @@ func runC17(c *fw.Check) {
 	if !c.Quick() {
 		c.SetBudget(45 * 60 * 1e9)
 	}
-	c.Rule = "ALL metadata graphs of <=3 numbered nodes: each node a tuple, a tuple with an inline child, or a DIDerivedType, plain or distinct, with unassigned (-1), dense explicit or sparse explicit ID, referencing EVERY subset of the nodes (forward references, cycles, self references through distinct nodes), all listed in a named metadata node; (quick restricts the 2nd/3rd node of 3-node graphs to tuples). Each graph is built through the API and printed (IDs unique, explicit kept, unassigned = smallest unused in module order, every reference printed as its target's ID, against text built from a reference model), re-parsed (reference and definition are the same object, distinctness and inline-vs-numbered placement preserved), written as text in EVERY definition order with the named metadata split into one definition per operand (merged in textual order, printed in ascending ID order), and on a covering subset compared through llvm-as|llvm-dis. PLUS every reference POSITION (attachments of globals, declarations, definitions, instructions, terminators; metadata call arguments; named metadata; tuple fields; inline tuples in attachments; DI fields): all 2^10 assignments of the positions to two nodes x ID sets x distinctness x definitions before/after uses, each text parsed twice and once more with the two definitions exchanged in the same process: every reference must be the object in Module.MetadataDefs. distinct = graphs + reference-position modules (x text permutations as transitions)."
+	c.Rule = "ALL metadata graphs of <=3 numbered nodes: each node a tuple, a tuple with an inline child, or a DIDerivedType, plain or distinct, with unassigned (-1), dense explicit or sparse explicit ID, referencing EVERY subset of the nodes (forward references, cycles, self references through distinct nodes), all listed in a named metadata node; (quick restricts the 2nd/3rd node of 3-node graphs to tuples). Each graph is built through the API and printed (IDs unique, explicit kept, unassigned = smallest unused in module order, every reference printed as its target's ID, against text built from a reference model), re-parsed (reference and definition are the same object, distinctness and inline-vs-numbered placement preserved), written as text in EVERY definition order with the named metadata split into one definition per operand (merged in textual order, printed in ascending ID order), and on a covering subset compared through llvm-as|llvm-dis. PLUS every reference POSITION (attachments of globals, declarations, definitions, instructions, terminators; metadata call arguments; named metadata; tuple fields; inline tuples in attachments; DI fields): all 2^10 assignments of the positions to two nodes x ID sets x distinctness x definitions before/after uses, each text parsed twice and once more with the two definitions exchanged in the same process: every reference must be the object in Module.MetadataDefs. PLUS the metadata productions of the generator catalogue (all 28 specialised kinds x field subsets x distinct x numbered/inline placement): unique IDs, no dangling printed reference, nodes without definition have no ID, inline placement preserved. distinct = graphs + reference-position modules (x text permutations as transitions)."
 	var total int
 	for n := 1; n <= maxN; n++ {
 		gs := c17graphs(n, !c.Quick())
@@ -490,11 +490,21 @@ func runC17(c *fw.Check) {
 	}
 	c.Extra["graphs"] = total
 	c17refs(c)
+	c17generated(c)
 }
 
 func replayC17(c *fw.Check, path string) {
 	var cs c17case
 	loadReplay(path, &cs)
+	var any map[string]interface{}
+	loadReplay(path, &any)
+	if _, ok := any["entry"]; ok {
+		fmt.Printf("replay generated metadata case %v %v:\n%v\n", any["entry"], any["deviations"], any["input"])
+		c17generated(c) // the whole (cheap) part; the failing variant is among them
+	}
+	if _, ok := any["position_refers_to"]; ok {
+		c17refs(c)
+	}
 	if cs.Graph != nil {
 		fmt.Printf("replay graph: %s\n", cs.Graph.String())
 		m, _ := c17build(*cs.Graph)
